@@ -31,7 +31,7 @@ RULE = ("histories = Hypothesis-generated interleavings of N encryptions per con
         "p2s >= 8 octets, default p2c >= 1000, epk a valid point on the recipient's curve), pairwise distinct values, every bit position "
         "of IV/CEK/GCMKW iv/p2s takes both values over >= 128 samples; the same history run in 4 fresh processes (each seeding random "
         "identically, as a host application might) shares no value. Key generation: N keys per type/size/curve pairwise distinct, of the "
-        "requested size/curve, oct keys without fixed bits; key sets generated in one call hold pairwise distinct keys. non-trivial: histories with >= 2 encryptions of one configuration; distinct = "
+        "requested size/curve (sizes at the edges are refused or exact), oct keys without fixed bits; key sets generated in one call hold pairwise distinct keys. non-trivial: histories with >= 2 encryptions of one configuration; distinct = "
         "(configuration, step kind) pairs observed.")
 ASSUMPTIONS = ["detects constants, per-call/per-process resets, cached values, fixed bits and wrong sizes; cannot detect a weak but non-repeating generator",
                "false-alarm probability of the fixed-bit test: < 2^-100 per run (N >= 128 samples per bit position)"]
